@@ -2,7 +2,7 @@
 
 Monitor: seeded histories over {create ctx i, create duplicate, delete ctx i,
 delete unknown, start worker in ctx i, start worker in unknown ctx, unusable
-worker request naming ctx i, enqueue, wait} on ids 1-3 (distinct target/defaults per id) against a real server;
+worker request naming ctx i, enqueue, wait} on ids 0-3 (distinct target/defaults per id) against a real server;
 oracle = dictionary model of the server's context table + server health."""
 import os
 
@@ -34,7 +34,7 @@ def case(spec, log):
             rec = {'step': step, 'op': op}
             if name == 'create':
                 i = op[1]
-                r = bounded('create_ctx', lambda: RemoteContext(i, host=host, target=vtargets.ctx_target, args=[None, 'ctx%d' % i], kwargs={'mul': i * 10}), 30)
+                r = bounded('create_ctx', lambda: RemoteContext(i, host=host, target=vtargets.ctx_target, args=[None, 'ctx%d' % i], kwargs={'mul': (i + 1) * 10}), 30)
                 rec['outcome'] = 'hang' if r is HANG else ('raised:' + type(r.exc).__name__ if isinstance(r, Raised) else 'ok')
                 if rec['outcome'] == 'ok':
                     ctxs[i] = r
@@ -169,7 +169,7 @@ def gen_history(r):
     created = []
     for _ in range(r.randint(3, 8)):
         x = r.random()
-        i = r.randint(1, 3)
+        i = r.randint(0, 3)
         # bias towards ids that exist: several workers in one context, deletes of populated contexts
         if created and r.random() < 0.6:
             i = r.choice(created)
@@ -251,7 +251,7 @@ def judge(chk, spec, res):
                     probs.append('worker-in-unknown-context-alive')
         elif name == 'enqueue' and rec.get('outcome') == 'value':
             i = rec['ctx']
-            want = ['ctx%d' % i, rec['x'] * i * 10]
+            want = ['ctx%d' % i, rec['x'] * (i + 1) * 10]
             if rec['value'] != want:
                 probs.append('context-worker-computed-%s-instead-of-%s' % (short(rec['value'], 40), want))
     if end and not probs:
@@ -273,7 +273,7 @@ def judge(chk, spec, res):
 def run(tier):
     thorough = tier == 'thorough'
     chk = Check('C18', 'exploration', tier,
-                'seeded histories (3-8 operations) over {create ctx i, create duplicate, delete ctx i, delete unknown, worker in ctx i, worker in unknown ctx, unusable worker request naming ctx i (garbage / wrong object / unknown class / half message / close), enqueue, wait} on ids 1-3 with distinct target defaults per id, '
+                'seeded histories (3-8 operations) over {create ctx i, create duplicate, delete ctx i, delete unknown, worker in ctx i, worker in unknown ctx, unusable worker request naming ctx i (garbage / wrong object / unknown class / half message / close), enqueue, wait} on ids 0-3 (0 being a falsy id) with distinct target defaults per id, '
                 'each against a fresh real server; oracle = dictionary model of the context table; distinct non-trivial = distinct histories')
     r = rng('c18')
     jobs = [gen_history(r) for _ in range(300 if thorough else 60)]
@@ -282,6 +282,7 @@ def run(tier):
              dict(ops=[['create', 2], ['worker', 2], ['worker', 2], ['create', 3], ['worker', 3], ['delete', 2], ['enqueue', 0, 3], ['delete', 3]]),
              dict(ops=[['create', 1], ['create', 1], ['worker', 1], ['enqueue', 0, 3], ['delete', 1], ['create', 1], ['worker', 1], ['enqueue', 0, 4]]),
              dict(ops=[['worker', 2], ['delete', 2], ['create', 2], ['worker', 2], ['enqueue', 0, 5]]),
+             dict(ops=[['create', 0], ['create', 1], ['worker', 0], ['worker', 1], ['enqueue', 0, 2], ['enqueue', 1, 3], ['create', 0], ['delete', 0], ['create', 0], ['worker', 0], ['enqueue', 0, 4], ['delete', 0], ['delete', 1]]),
              *[dict(ops=[['create', 1], ['worker', 1], ['enqueue', 0, 2], ['bad', 1, m], ['worker', 1], ['enqueue', 0, 3], ['enqueue', 1, 3], ['create', 1], ['delete', 1], ['create', 1], ['delete', 1]]) for m in BAD_MODES],
              *[dict(ops=[['bad', 2, m], ['create', 2], ['worker', 2], ['enqueue', 0, 2]]) for m in BAD_MODES],
              dict(ops=[['create', 1], ['create', 2], ['create', 3], ['worker', 3], ['worker', 1], ['enqueue', 0, 2], ['enqueue', 1, 2], ['delete', 3]])]
